@@ -25,7 +25,7 @@ PROPS = {
     'C15': {'units': ['shape', 'bshape', 'openin', 'hmerge'], 'kani': [], 'only': {'openin': r'per_matrix_shape_and_grouping|compute_single_reduced_opening|height_group'}},
     'C13': {'units': ['sym', 'symx', 'airlay'], 'kani': []},
     'C09': {'units': ['prep', 'mult', 'pread', 'pphase', 'ptrace'], 'kani': []},
-    'C08': {'units': ['mmcs', 'hash', 'mbind', 'vbatch', 'vbatchx'], 'kani': []},
+    'C08': {'units': ['mmcs', 'hash', 'mbind', 'vbatch', 'vbatchx', 'a4sched'], 'kani': []},
     'C16': {'units': ['meta', 'vrfy', 'serde16', 'manif', 'rcplug'], 'kani': []},
     'C11': {'units': ['air', 'alu', 'run19', 'tracegen', 'pchain'], 'kani': [], 'only': {'run19': r'execute_alu_op'}},
 }
